@@ -9,7 +9,7 @@ SEED_PYTHONPATH="$wt:/tmp/seed/shim" /verif/tools/confirm_seed.sh "$name" "$wt" 
 grep -v "it/s\|event trees\|conda" "$out/confirm.log" | tail -12
 for f in demo.py meta.json; do cp "$wt/_seed/$f" "$out"/; done
 git -C "$wt" diff -- tel2puml > "$out/patch.diff"
-O2P_REPO=/tmp/seed/clean LINES_OUT=${LINES_OUT:-4} /verif/tools/try_seed.sh "$prop" "$out/patch.diff" ${TIER:-quick} > "$out/check.log" 2>&1
+O2P_REPO=${CLEAN_WT:-/tmp/seed/clean} LINES_OUT=${LINES_OUT:-4} /verif/tools/try_seed.sh "$prop" "$out/patch.diff" ${TIER:-quick} > "$out/check.log" 2>&1
 tail -5 "$out/check.log" | cut -c1-400
 /venv/bin/python - "$out" "$prop" <<'PY' 2>&1 | grep -v conda.cli
 import json, sys, re
